@@ -20,12 +20,22 @@ import (
 	"time"
 )
 
-// VerifDir is the root of the verification tree.
+// VerifDir is the root of the verification tree (known findings, build directory).
 var VerifDir = func() string {
 	if d := os.Getenv("VERIF_DIR"); d != "" {
 		return d
 	}
 	return "/verif"
+}()
+
+// OutDir is where evidence and replay files go: VerifDir, unless VERIF_OUT redirects it (used
+// when a check is run against a scratch copy of the repository, so that the evidence of the real
+// tree is not touched).
+var OutDir = func() string {
+	if d := os.Getenv("VERIF_OUT"); d != "" {
+		return d
+	}
+	return VerifDir
 }()
 
 // Prop is one registered property check.
@@ -231,7 +241,7 @@ func trunc(s string, n int) string {
 }
 
 func (c *Ctx) writeReplay(sig, detail string, replayCase interface{}) string {
-	dir := filepath.Join(VerifDir, "replays", c.Prop.ID)
+	dir := filepath.Join(OutDir, "replays", c.Prop.ID)
 	os.MkdirAll(dir, 0o755)
 	b, err := json.MarshalIndent(map[string]interface{}{
 		"property": c.Prop.ID, "signature": sig, "detail": detail, "case": replayCase,
@@ -450,17 +460,17 @@ func ParentMain(id, tier string) int {
 	if s, err := strconv.Atoi(os.Getenv("VERIF_SHARDS")); err == nil && s > 0 {
 		n = s
 	}
-	tmp, err := os.MkdirTemp(filepath.Join(VerifDir, ".build"), "run-"+id+"-")
+	os.MkdirAll(filepath.Join(OutDir, ".build"), 0o755)
+	tmp, err := os.MkdirTemp(filepath.Join(OutDir, ".build"), "run-"+id+"-")
 	if err != nil {
-		os.MkdirAll(filepath.Join(VerifDir, ".build"), 0o755)
-		tmp, err = os.MkdirTemp(filepath.Join(VerifDir, ".build"), "run-"+id+"-")
+		tmp, err = os.MkdirTemp(filepath.Join(OutDir, ".build"), "run-"+id+"-")
 		if err != nil {
 			fmt.Fprintln(os.Stderr, err)
 			return 2
 		}
 	}
 	defer os.RemoveAll(tmp)
-	os.RemoveAll(filepath.Join(VerifDir, "replays", id))
+	os.RemoveAll(filepath.Join(OutDir, "replays", id))
 	self, _ := os.Executable()
 	type res struct {
 		rep  Report
@@ -645,8 +655,8 @@ func ParentMain(id, tier string) int {
 		"violations":  nviol,
 	}
 	b, _ := json.MarshalIndent(ev, "", " ")
-	os.MkdirAll(filepath.Join(VerifDir, "evidence"), 0o755)
-	if err := os.WriteFile(filepath.Join(VerifDir, "evidence", id+".json"), append(b, '\n'), 0o644); err != nil {
+	os.MkdirAll(filepath.Join(OutDir, "evidence"), 0o755)
+	if err := os.WriteFile(filepath.Join(OutDir, "evidence", id+".json"), append(b, '\n'), 0o644); err != nil {
 		fmt.Fprintln(os.Stderr, "cannot write evidence:", err)
 		if exit == 0 {
 			exit = 2
